@@ -50,8 +50,8 @@ func (g *Gen) finish() {
 	g.w.Flush()
 }
 
-func ratInt(n int64) *big.Rat      { return new(big.Rat).SetInt64(n) }
-func ratFrac(n, d int64) *big.Rat  { return big.NewRat(n, d) }
+func ratInt(n int64) *big.Rat     { return new(big.Rat).SetInt64(n) }
+func ratFrac(n, d int64) *big.Rat { return big.NewRat(n, d) }
 func pow2Rat(e int) *big.Rat {
 	if e >= 0 {
 		return new(big.Rat).SetInt(new(big.Int).Lsh(big.NewInt(1), uint(e)))
